@@ -370,6 +370,10 @@ def run(prog, rep, tier):
     rep.floor('TRUNC-combine', 5)
     rep.floor('TRUNC-mask-shape', 5)
     rep.assumptions += ['numerical statements about spectra are NOT decided']
+    from ..flow import check_dead_computations
+    rep.rule('VALUE-dead', 'no result of a call is bound to a local that is never read (reaching '
+             'definitions)')
+    check_dead_computations(prog, rep, ['tenpy/linalg/truncation.py'])
     return rep.finish(
         level='other',
         explanation='Constraint pipeline of truncate() and the renormalisation/projection pairing '
